@@ -482,7 +482,7 @@ func TestCheck(t *testing.T) {
 	}
 	// (the millions of cheap pool cycles and calc calls of the background load are reported separately, not counted here)
 	evals := counts["seq_pipelines"] + 2*counts["two_stream_scenarios"] + counts["gated_pipelines"] + counts["free_pipelines"] +
-		counts["registry_calls"] + counts["bytepool_seq_cases"] + counts["bytepool_resize_cases"] + counts["cron_name_calls"] +
+		counts["registry_calls"] + counts["bytepool_seq_cases"] + counts["bytepool_resize_cases"] + counts["cron_name_calls"] + counts["cron_zone_calls"] +
 		counts["logwalk_new_names"] + counts["logwalk_walks"] + counts["crypto_shared_calls"] + logCompared +
 		counts["returned_container_calls"] + counts["shared_aead_calls"] + counts["shared_block_calls"]
 	e.Set("evaluations", evals)
@@ -495,6 +495,7 @@ func TestCheck(t *testing.T) {
 		"(f) ByteSlicePool: MinCap {1,7,64,1000,4096,65536} x requested capacity x bytes written x length at Put (full, 0, half, through Resize) x how the next holder looks (Resize to cap-1, re-slice to cap, own bytes then re-slice), and concurrent get/put cycles; "+
 		"(g) cron.ParseStandard/Parser.Parse and kit/crypto symmetric calls made concurrently vs alone; "+
 		"(h) default cron parser name tables: in separate processes, waves in which 4 goroutines parse specs with never-before-seen mixed-case spellings (all 7 capitalisations of the 12 month and 7 day names, alone / in lists / in ranges with steps, standard and seconds parser) while 4 goroutines parse lower-case named specs, ordered by nothing but the wave's start, answers compared with the lower-case spec parsed alone; race reports and the runtime's fatal concurrent-map error become race traces; "+
+		"(h') time zones in the same processes: waves in which 4 goroutines parse TZ=<zone> / CRON_TZ=<zone> specs whose zone nobody in the process has used before (about 100 IANA names and fixed offsets, shuffled, fresh ones in every wave) through cron.ParseStandard, a seconds parser, a parser without descriptors and one with an optional day-of-week, alternating with zone-less specs, while 4 goroutines parse specs with the zones of earlier waves and without zone; expected answer = the zone-less spec parsed alone, evaluated in the zone as loaded by the standard library; "+
 		"(i) ByteSlicePool ownership across a growing Resize: a := Get; b := Resize(a, cap+{0,1,MinCap}); a kept and written, or Put; c := Get; d := Get; distinct content written into each; memory blocks numbered by address overlap; MinCap {1,7,64,4096} x written {1,MinCap,MinCap+5}, each repeated (sync.Pool drops a Put at random under -race). "+
 		"(j) logger registry walks: rounds in which one goroutine runs ApplyOptionsToLoggers in a loop while 6 goroutines register 80 never-seen names each, in a process of their own; a fatal concurrent-map error or race report becomes a race trace; "+
 		"(k) logger output bytes: 6 loggers (buffer/file/pseudo-terminal output x text/JSON, different levels and app ids) running a fixed script of log calls, each alone in its own process and together in 12 orders of first use (every logger first once, every pair in both orders; thorough: + all 24 orders of 4), sequentially and then concurrently; timestamps stripped; bytes must equal the alone run; "+
